@@ -28,6 +28,7 @@ package chk
 //@ unit HasResult
 //@ requires !fatal && want != nil && tagof(t) != 0
 //@ ensures[fatal-iff-absent] fatal <==> !(exists i in 0..len(res) :: wantMatches(res[i], want, opt))
+//@ ensures[singleton] len(res) == 1 ==> (fatal <==> !wantMatches(res[0], want, opt))
 //@ loop 1 at "range res" invariant found <==> (exists i in 0..loopi :: wantMatches(res[i], want, opt))
 //@ loop 1 invariant !fatal && len(opts) == 2 && opts[0] == ignoreFieldsOpt(want.Details == nil, optIgnoreID(opt), !optServerErr(opt))
 //@ loop 2 at "range res" invariant !fatal && !found
